@@ -26,4 +26,5 @@ def run(col, configs, tier):
         guarded(col, sep.rule_take_n_twins, facts)
         guarded(col, sep.rule_window_keeps_count, facts)
         guarded_soft(col, X.rule_suffix_step, facts)
+        guarded_soft(col, X.rule_sign_needs_digit, facts)
         guarded_soft(col, X.rule_partial_count_is_position, facts)
